@@ -128,6 +128,42 @@ func (c *Ctx) c16Stored(pm *pairModel) {
 			}
 			ev := call.Call.Args[1]
 			okID := false
+			// the event built by a helper of the package from the id it is given
+			// (Emit(storedMetadata(delivery, id))): every record it returns has its ID set from
+			// the parameter that receives this call's id
+			if bc, isCall := ev.(*ssa.Call); isCall {
+				if rets, g := eng.ReturnedValues(bc, 0); g != nil && len(rets) > 0 && eng.InModule(g) {
+					all := true
+					for _, rv := range rets {
+						one := false
+						if rv.Referrers() != nil {
+							for _, ref := range *rv.Referrers() {
+								fa, ok := ref.(*ssa.FieldAddr)
+								if !ok || !eng.SameField(eng.FieldOfAddr(fa), fID) || fa.Referrers() == nil {
+									continue
+								}
+								for _, r2 := range *fa.Referrers() {
+									st, ok := r2.(*ssa.Store)
+									if !ok {
+										continue
+									}
+									if prm, isP := st.Val.(*ssa.Parameter); isP && prm.Parent() == g {
+										if pi := eng.ParamIndex(prm); pi >= 0 && pi < len(bc.Call.Args) && (bc.Call.Args[pi] == idv || p.Actual(bc.Call.Args[pi]) == idv) {
+											one = true
+										}
+									}
+								}
+							}
+						}
+						if !one {
+							all = false
+						}
+					}
+					if all {
+						return true
+					}
+				}
+			}
 			if ev.Referrers() != nil {
 				for _, ref := range *ev.Referrers() {
 					if fa, ok := ref.(*ssa.FieldAddr); ok && eng.SameField(eng.FieldOfAddr(fa), fID) {
